@@ -152,8 +152,9 @@ def extract_selected_variable_and_expression(symbolic_cls: Type, domain: Optiona
     """
     cache_keys = get_cache_keys_for_class_(Variable._cache_, symbolic_cls)
     if not domain and cache_keys:
-        domain = From((v for a, v in yield_class_values_from_cache(Variable._cache_, symbolic_cls, from_index=False,
-                                                                   cache_keys=cache_keys)))
+        # (the classes that have instances are looked up when the domain is read, not now: a subclass whose first instance is
+        # constructed between the declaration and the evaluation counts as well)
+        domain = From((v for a, v in yield_class_values_from_cache(Variable._cache_, symbolic_cls, from_index=False)))
     elif domain and is_iterable(domain.domain) and not isinstance(domain.domain, SymbolicExpression):
         # a new `From`: the given one is left as it is, it may be handed to other variables (of other types) as well
         domain = From(filter(lambda v: isinstance(v, symbolic_cls), domain.domain))
